@@ -58,6 +58,12 @@ def ll_login(w, sc):
     elif lc == "clone_fails_first":
         # a copy is consumed by a failing attempt (wrong proof) before the original takes the honest one
         lines += ["clone\th=3\tinto=13", "proof_server\th=13\tinto=14\tA=%s\tM1=%s" % ((b"\x05" + bytes(31)).hex(), bytes(20).hex())]
+    if sc.get("foreign_group_first"):
+        # the same account (same name, password and salt) is first asked to log in under another announced group - a forged or
+        # corrupted challenge - on the same thread; whatever that call returns, the honest exchange that follows must succeed
+        fg, fn = sc["foreign_group_first"]
+        lines.append("cli_new\tinto=24\tu=%s\tp=%s\tg=%d\tN=%s\tB=$%d.B\tsalt=$%d.salt" % (
+            sc["cuser"].encode().hex(), sc["cpw"].encode().hex(), fg, fn, ids["proof"], ids["proof"]))
     if sc.get("a"):
         lines.append(fmt("rng_script", chunks=sc["a"]))
     lines.append("cli_new\tid=%d\tinto=4\tu=%s\tp=%s\tg=7\tN=%s\tB=$%d.B\tsalt=$%d.salt" % (
@@ -78,9 +84,11 @@ def ll_login(w, sc):
     for l, e in zip(lines, evs):
         if "\tinto=14" in l and l.startswith("proof_server"):
             continue  # the deliberately failing attempt of the lifecycle scenario
+        if "\tinto=24" in l and l.startswith("cli_new"):
+            continue  # the session under a foreign group: its outcome is not judged here
         byop.setdefault(l.split("\t", 1)[0], []).append(e)
-    for e in evs:
-        if e.status == "panic":
+    for l, e in zip(lines, evs):
+        if e.status == "panic" and not ("\tinto=24" in l and l.startswith("cli_new")):
             s.panic = e
             return s
     ver = byop["ver_new"][0]
